@@ -100,6 +100,17 @@ def _check(prop, tier, seed, replay, work, t0):
             nimg += s["images"]
             samples += (s.get("samples") or [])[:1]
             shutil.copyfileobj(open(os.path.join(work, ("c%d.ndjson" if crash else "t%d.ndjson") % i)), w)
+    nrace = 0
+    if not crash:
+        # one race of the memory cache under stress (a log writer closed while its ingest goroutine rotates; a second writer
+        # continues; a reader from the start has to reach the right edge): the stalled tries go into the trace
+        mr = vlib.build_driver("memrace", work)
+        nrace = 600 if tier == "quick" else 12000
+        rc, out = vlib.run_parallel([[mr, "-n", str(nrace), "-out", os.path.join(work, "memrace.ndjson")]], timeout=3000)[0]
+        if rc != 0:
+            raise vlib.HarnessError("memrace failed (%d):\n%s" % (rc, out[-2000:]))
+        with open(trace, "a") as w:
+            shutil.copyfileobj(open(os.path.join(work, "memrace.ndjson")), w)
     if crash:
         viol, tr = vlib.tlc_trace([os.path.join(SPEC, "trace", "TraceCacheCrash.tla")], "TraceCacheCrash", trace, work, timeout=3000)
     else:
